@@ -24,6 +24,14 @@ JudgeC01(e, cfg, T) ==
   ELSE IF ~e.out.sane THEN "decoded-slice-has-len-above-cap"
   ELSE IF ~Eq(T, e.out.back, Norm(cfg, T, e.v, TRUE)) THEN "value@" \o Diff(T, e.out.back, Norm(cfg, T, e.v, TRUE))
   ELSE IF ~e.out.backUTC THEN "time-not-utc"
+  ELSE IF "byval" \in DOMAIN e.out /\ e.out.byval.have THEN
+       \* the same value handed to Marshal by value instead of through a pointer
+       LET bv == e.out.byval IN
+       IF bv.panic THEN "byvalue:panic:" \o bv.where
+       ELSE IF bv.merr # "" THEN "byvalue:marshal-error"
+       ELSE IF bv.uerr # "" THEN "byvalue:unmarshal-error"
+       ELSE IF ~Eq(T, bv.back, Norm(cfg, T, e.v, TRUE)) THEN "byvalue:value@" \o Diff(T, bv.back, Norm(cfg, T, e.v, TRUE))
+       ELSE "ok"
   ELSE "ok"
 
 \* ---- C02: bytes ----
